@@ -28,9 +28,12 @@ def rule_X9(chk, u):
     for s in fn["body"]["s"]:
         if s.get("k") == "For":
             for x in C.walk_stmt(s["body"]):
-                if x.get("k") == "Bin" and x.get("op") == "=" and C.strip_casts(x["b"]).get("k") == "Bin" and \
-                        C.strip_casts(x["b"]).get("op") == "%" and C.const_int(C.strip_casts(x["b"])["b"]) == 2:
+                b_ = C.strip_casts(x["b"]) if x.get("k") == "Bin" and x.get("op") == "=" else None
+                if b_ is not None and b_.get("k") == "Bin" and \
+                        ((b_.get("op") == "%" and C.const_int(b_["b"]) == 2) or (b_.get("op") == "&" and C.const_int(b_["b"]) == 1)):
                     v = C.strip_casts(C.strip_casts(x["b"])["a"])
+                    if v.get("k") == "Bin" and v.get("op") == ">>":
+                        v = C.strip_casts(v["a"])             # bit k read as (v >> k) & 1
                     if v.get("k") == "Ref" and "id" in v:
                         target, loop = v, s
             if target is not None:
@@ -80,7 +83,23 @@ def rule_X9(chk, u):
         if k == "Bin" and e.get("op") in ("+", "-") and lit(e["b"]) is not None:
             d = lit(e["b"]) * (1 if e["op"] == "+" else -1)
             return [(lo, hi, kind, off + d) for lo, hi, kind, off in value(e["a"])]
+        if k == "Cond":
+            c = C.strip_casts(e["c"])
+            if c.get("k") == "Bin" and c.get("op") in ("==", "!=") and lit(c["b"]) is not None:
+                eq, ne = split_eq(value(c["a"]), lit(c["b"]))
+                t_p, f_p = (eq, ne) if c["op"] == "==" else (ne, eq)
+                return clip(value(e["a"]), [(lo, hi) for lo, hi, _, _ in t_p]) + \
+                    clip(value(e["b"]), [(lo, hi) for lo, hi, _, _ in f_p])
         raise AnalysisBroken("%s: `%s` is not read by the seed-map evaluation" % (fn["full"], C.pretty(e)[:60]))
+
+    def clip(pcs, dom):
+        out = []
+        for lo, hi, kind, off in pcs:
+            for rlo, rhi in dom:
+                a, b = max(lo, rlo), min(hi, rhi)
+                if a <= b:
+                    out.append((a, b, kind, off))
+        return out
 
     def split_eq(pieces, c):
         """(pieces where value == c, pieces where value != c)"""
